@@ -29,6 +29,7 @@ pub fn gen(group: &str, rng: &mut Rng, n: usize, out: &mut Vec<String>) {
         "msgid" => conn::gen_msgid(rng, n, out),
         "stream" => stream::gen_stream(rng, n, out),
         "paged" => stream::gen_paged(rng, n, out),
+        "pagedstop" => stream::gen_pagedstop(rng, n, out),
         "setup" => net::gen_setup(rng, n, out),
         "tls" => net::gen_tls(rng, n, out),
         "sync" => synclane::gen(rng, n, out),
